@@ -10,6 +10,7 @@ import (
 	"time"
 
 	tls "github.com/refraction-networking/utls"
+	"github.com/refraction-networking/utls/zz_verif/refsrv"
 	"github.com/refraction-networking/utls/zz_verif/simnet"
 	"github.com/refraction-networking/utls/zz_verif/simrt"
 )
@@ -20,8 +21,8 @@ func init() {
 	Register("C25", &Info{
 		Run:   runC25,
 		Quick: 3000, Thor: 300000,
-		Rule: "a world = one (version, cipher suite) pair negotiated by a single-suite client spec (TLS 1.3: the three suites; TLS 1.2: every documented suite (the client-only legacy ChaCha20 and EnableWeakCiphers suites have no compliant peer here, see C27); TLS 1.0/1.1: the CBC suites) against the repository or std server, then a drawn sequence of client writes (0 B .. 40 kB, record boundaries) echoed by the server and read with drawn buffer sizes (1 B .. 32 kB); phase 1 establishes the connection, then the scheduler arms one fault on the live connection: bit flip at a drawn offset of the next application records, truncation (clean EOF mid-record or at a record boundary), connection reset, or an on-path attacker dropping / duplicating / swapping whole records; oracle: what each side read is a prefix of what the peer wrote; without a fault it is everything; after a flip/drop/dup/swap inside the data the receiver must return an error and deliver strictly less than everything; non-trivial = >=1 application record each way (fault stratum: the fault fired before the last record); distinct = (version, suite, peer, write sizes, read sizes, fault)",
-		Assumptions: []string{"TLS 1.3 key updates need a peer that initiates them (neither Go server does): not covered here",
+		Rule: "a world = one (version, cipher suite) pair negotiated by a single-suite client spec (TLS 1.3: the three suites; TLS 1.2: every documented suite (the client-only legacy ChaCha20 and EnableWeakCiphers suites have no compliant peer here, see C27); TLS 1.0/1.1: the CBC suites) against the repository or std server or (a third of the worlds) the reference server, which shapes its records in every way the RFCs allow (TLS 1.3 padding, arbitrary fragment sizes, zero-length application_data records) and under TLS 1.3 sends KeyUpdate messages with and without update_requested between its echo writes; then a drawn sequence of client writes (0 B .. 40 kB, record boundaries) echoed by the server and read with drawn buffer sizes (1 B .. 32 kB), by one client task or by a writer and a reader task at once under a scheduler that may switch at lock acquisitions and right after unlocks; phase 1 establishes the connection, then the scheduler arms one fault on the live connection: bit flip at a drawn offset of the next application records, truncation (clean EOF mid-record or at a record boundary), connection reset, or an on-path attacker dropping / duplicating / swapping whole records; oracle: what each side read is a prefix of what the peer wrote; without a fault it is everything; after a flip/drop/dup/swap inside the data the receiver must return an error and deliver strictly less than everything; non-trivial = >=1 application record each way (fault stratum: the fault fired before the last record); distinct = (version, suite, peer, write sizes, read sizes, fault)",
+		Assumptions: []string{"TLS 1.3 key updates are initiated by the reference server (sim/refsrv); client-initiated updates do not exist in this code base",
 			"EnableWeakCiphers is process-global: the C25 worker process enables it at start and never runs another property"},
 		Real: []string{"utls client record layer (UConn.Read/Write, halfConn) from /repo", "utls or std server"},
 		Stub: []string{"transport with attacker faults, clock, crypto/rand"},
@@ -144,13 +145,27 @@ func runC25(c *Ctx) {
 	ch := c.Ch
 	weakOnce.Do(func() { tls.EnableWeakCiphers(); buildSuiteCases() })
 	sc := suiteCases[int(c.Run)%len(suiteCases)]
+	kuStratum := c.Run%4 == 3 // TLS 1.3 with the reference server: key updates, full-duplex client
+	if kuStratum {
+		sc = suiteCases[int(c.Run/4)%3]
+		if sc.ver != 0x0304 {
+			c.R.Harness = "suite case order changed"
+			return
+		}
+	}
 	peer := sc.peers[ch.Pick(len(sc.peers), "peer")]
 	nwrites := ch.Range(1, 5, "nwrites")
+	if kuStratum {
+		nwrites = ch.Range(3, 14, "nwrites-ku") // a writer that is still busy while key updates arrive
+	}
 	sizes := []int{0, 1, 2, 100, 1000, 16383, 16384, 16385, 20000, 32768, 40000}
 	var payload [][]byte
 	total := 0
 	for i := 0; i < nwrites; i++ {
 		sz := sizes[ch.Pick(len(sizes), "wsize")]
+		if kuStratum {
+			sz = []int{1, 100, 1000, 3000}[ch.Pick(4, "wsize-ku")]
+		}
 		b := make([]byte, sz)
 		ch.Bytes(b, "payload")
 		payload = append(payload, b)
@@ -171,7 +186,7 @@ func runC25(c *Ctx) {
 	frec := ch.Pick(3, "fault-record")
 	frag := ch.Bool(50, "frag")
 
-	w := c.NewWorld(simrt.Config{})
+	w := c.NewWorld(simrt.Config{LockYield: ch.Bool(40, "lockyield"), UnlockYield: ch.Bool(40, "unlockyield"), PreemptPct: 10 + 20*ch.Pick(3, "preempt")})
 	l := simnet.NewLink("c")
 	l.Frag = frag
 	atkAB, atkBA := &recordAttacker{}, &recordAttacker{}
@@ -194,9 +209,50 @@ func runC25(c *Ctx) {
 			srs = 32768 // echo in few records so that data and close_notify coalesce
 		}
 	}
-	o := &ConnOutcome{Spec: &ConnSpec{ID: tls.HelloCustom, Peer: peer, SCfg: scfg, StdCfg: stdcfg, ReadSize: srs, ServerCloseAfter: closeAfter}, Link: l}
+	// a third of the worlds use the reference server as the compliant peer: it shapes its records in
+	// every way RFC 8446/5246 allow (padding, arbitrary fragment sizes, zero-length application_data
+	// records) and, under TLS 1.3, sends KeyUpdate messages (with and without update_requested)
+	var rcfg *refsrv.Config
+	shape := uint64(0)
+	kuEvery, kuReq := 0, false
+	if ch.Bool(35, "ref-peer") || kuStratum {
+		peer = PeerRef
+		rcfg = refCfg(auth)
+		rcfg.MaxVersion = sc.ver
+		if sc.ver < 0x0304 {
+			rcfg.CipherSuites = []uint16{sc.suite}
+		}
+		shape = ch.U64("record-shape") | 1
+		st := shape
+		next := func(n int) int {
+			st += 0x9e3779b97f4a7c15
+			z := st
+			z = (z ^ (z >> 30)) * 0xbf58476d1ce4e5b9
+			z = (z ^ (z >> 27)) * 0x94d049bb133111eb
+			z ^= z >> 31
+			return int(z % uint64(n))
+		}
+		mode := ch.Pick(4, "shape-mode") // 0 plain, 1 padding, 2 splitting+empty, 3 everything
+		if mode == 1 || mode == 3 {
+			rcfg.Byz.RecordPad = func(int) int { return []int{0, 0, 1, 17, 255, 1000}[next(6)] }
+		}
+		if mode >= 2 {
+			rcfg.Byz.RecordSplit = func(int) int { return []int{0, 1, 100, 5000}[next(4)] }
+			rcfg.Byz.EmptyRecords = func() int { return []int{0, 0, 0, 1, 2}[next(5)] }
+		}
+		if sc.ver == 0x0304 && (ch.Bool(60, "key-updates") || kuStratum) {
+			kuEvery = 1 + ch.Pick(3, "ku-every")
+			kuReq = ch.Bool(60, "ku-request")
+		}
+	}
+	pace := ch.U64("writer-pace")
+	duplex := ch.Bool(35, "duplex") || (kuStratum && ch.Bool(60, "duplex-ku")) // the client writes and reads in two tasks at once
+	o := &ConnOutcome{Spec: &ConnSpec{ID: tls.HelloCustom, Peer: peer, SCfg: scfg, StdCfg: stdcfg, RefCfg: rcfg, ReadSize: srs, ServerCloseAfter: closeAfter}, Link: l}
+	if kuEvery > 0 {
+		o.Spec.ServerKeyUpdate = func(n int) (bool, bool) { return n > 0 && n%kuEvery == 0, kuReq }
+	}
 
-	c.R.Class = fmt.Sprintf("v=%x suite=%04x peer=%s writes=%v crs=%d srs=%d fault=%s/%v/%d/%d closeafter=%v", sc.ver, sc.suite, peerName(peer), lens(payload), crs, srs, fault, dirAB, foff, frec, closeAfter > 0)
+	c.R.Class = fmt.Sprintf("v=%x suite=%04x peer=%s writes=%v crs=%d srs=%d fault=%s/%v/%d/%d closeafter=%v shape=%v ku=%d/%v duplex=%v", sc.ver, sc.suite, peerName(peer), lens(payload), crs, srs, fault, dirAB, foff, frec, closeAfter > 0, shape != 0, kuEvery, kuReq, duplex)
 	srv := w.Go("server", func() { defaultServer(o, l.B) })
 	var u *tls.UConn
 	var cread []byte
@@ -264,15 +320,34 @@ func runC25(c *Ctx) {
 	case "drop", "dup", "swap":
 		atk.armed, atk.kind, atk.at = true, fault, frec
 	}
-	io2 := w.Go("client.io", func() {
-		wn := 0
-		for _, p := range payload {
-			n, err := u.Write(p)
-			wn += n
-			if err != nil {
-				cioErr = err
+	var cwErr error
+	var wr *simrt.Task
+	writeAll := func() {
+		for i, p := range payload {
+			if duplex && i > 0 {
+				simrt.WaitSteps(int(pace>>(uint(i)%16*4)) & 15) // writes spread over the reader's activity
+			}
+			if _, err := u.Write(p); err != nil {
+				cwErr = err
 				break
 			}
+		}
+	}
+	left := 1
+	finish := func() {
+		left--
+		if left == 0 {
+			u.Close()
+		}
+	}
+	if duplex {
+		left = 2
+		wr = w.Go("client.writer", func() { writeAll(); finish() })
+	}
+	io2 := w.Go("client.io", func() {
+		if !duplex {
+			writeAll()
+			cioErr = cwErr
 		}
 		buf := make([]byte, crs)
 		for cioErr == nil && len(cread) < total {
@@ -283,9 +358,13 @@ func runC25(c *Ctx) {
 				break
 			}
 		}
-		u.Close()
+		finish()
 	})
-	w.RunUntil(io2, srv)
+	if wr != nil {
+		w.RunUntil(io2, wr, srv)
+	} else {
+		w.RunUntil(io2, srv)
+	}
 	w.Run()
 	w.Join()
 	c.Finish(w, true)
@@ -294,6 +373,15 @@ func runC25(c *Ctx) {
 	}
 	for k, v := range l.BA.Fired {
 		c.Fault(k, v)
+	}
+	if o.KeyUpdates > 0 {
+		c.Fault("key-update", o.KeyUpdates)
+	}
+	if shape != 0 {
+		c.Probe("reference-peer-record-shapes")
+	}
+	if duplex {
+		c.Probe("duplex-client")
 	}
 	if c.R.Violation != nil {
 		return
@@ -323,8 +411,11 @@ func runC25(c *Ctx) {
 		if fault == "none" || true {
 			// nothing was injected into the stream: everything must arrive
 			if len(sread) != total || len(cread) != total || (cioErr != nil && cioErr != io.EOF) {
+				if cioErr == nil {
+					cioErr = cwErr
+				}
 				if fault == "none" {
-					c.Violate(fmt.Sprintf("data-lost-without-fault v=%x suite=%04x peer=%s", sc.ver, sc.suite, peerName(peer)), "%s: server read %d, client read %d of %d; cio=%v sio=%v", c.R.Class, len(sread), len(cread), total, cioErr, o.SIOErr)
+					c.Violate(fmt.Sprintf("data-lost-without-fault v=%x suite=%04x peer=%s ku=%v duplex=%v", sc.ver, sc.suite, peerName(peer), kuEvery > 0, duplex), "%s: server read %d, client read %d of %d; cio=%v sio=%v", c.R.Class, len(sread), len(cread), total, cioErr, o.SIOErr)
 				}
 			}
 		}
